@@ -62,4 +62,16 @@ inductive View where
   | asMap | asDict | values | keys | asJson
   deriving DecidableEq, Repr
 
+/-- Where `RelationSchema.__iter__` takes the column names from: the column objects as they are now
+(`[col.name for col in self.columns]`) or the `column_names` accessor. -/
+inductive IterVia where
+  | columns | columnNames
+  deriving DecidableEq, Repr
+
+/-- Where a piece of code takes a schema's column names from: the column objects as they are now, the
+`column_names` accessor, or iteration over the schema object (`for s in schema`, `list(schema)`). -/
+inductive Via where
+  | columns | columnNames | iter
+  deriving DecidableEq, Repr
+
 end DictRow
